@@ -172,6 +172,25 @@ def whichMinAll (v : List α) : Res (List Nat) := do
   let m ← min v
   pure (positionsOf m 0 v)
 
+/-- `whichAll` (VectorTools.h:421): all positions of `x`; ElementNotFoundException when there is none -/
+def whichAll (v : List α) (x : α) : Res (List Nat) :=
+  let w := positionsOf x 0 v
+  if w.length ≠ 0 then .ok w else .error .notfound
+
+/-- `append(vector of vectors)` before the repair (VectorTools.h:1920): only `vecElementL[0]` was copied -/
+def appendAllOrig (vs : List (List α)) : List α :=
+  match vs with
+  | [] => []
+  | [v] => v
+  | v :: _ => v
+
+/-- `append(vector of vectors)` after the repair: the concatenation -/
+def appendAll (vs : List (List α)) : List α :=
+  match vs with
+  | [] => []
+  | [v] => v
+  | _ => vs.foldl (fun acc v => acc ++ v) []
+
 /-- `range` (VectorTools.h:1238) -/
 def range : List α → Res (α × α)
   | [] => .error .empty
